@@ -1701,8 +1701,31 @@ pub fn big_base(ctx: &Ctx, seed: u64) -> Result<Arc<BigBase>, Fail> {
 	let mut world = new_world(&cb);
 	let mut head = 0usize;
 	let mut infos = BTreeMap::new();
+	// Two of three base chains are steered so that a block an archive header can fall on (height 110 or 120)
+	// commits to exactly 1024 outputs — a whole number of bitmap chunks, the boundary between one and two
+	// leaves of the bitmap MMR: the running count is held at 1024 - (blocks still to come), each of which adds
+	// its coinbase output at least.
+	let exact_at: Option<u64> = match seed % 3 {
+		1 => Some(110),
+		2 => Some(120),
+		_ => None,
+	};
 	for i in 1..=BIG_LEN {
 		let mut raw = big_raw(seed, i);
+		if let Some(ht) = exact_at {
+			if i <= ht {
+				let have = world.nodes[head].model.n_outputs_ever;
+				let allowed = (1024 - (ht - i)).saturating_sub(have);
+				let natural = 1 + raw.txs.iter().map(|t| t.outs.len() as u64).sum::<u64>();
+				if allowed < natural {
+					if allowed <= 1 {
+						raw.txs.clear();
+					} else {
+						raw.txs[0].outs.truncate(allowed as usize - 1);
+					}
+				}
+			}
+		}
 		let built = loop {
 			let built = world.build(cb.c(), &raw, head).map_err(|e| Fail::new("harness:big-base", format!("block {}: {}", i, e)))?;
 			if built.verdict.is_ok() {
@@ -2578,6 +2601,8 @@ pub fn check_sync(ctx: &Ctx, case: &SyncCase, counting: bool) -> PResult {
 			Src::Reorged { .. } => "sync:source:reorganised_across_the_archive_header_after_serving",
 		});
 		ev.class(&format!("sync:archive_header_height:{}", archive.height));
+		let n_out = refmmr::ref_leaves_below(archive.output_mmr_size);
+		ev.class(if n_out % 1024 == 0 { "sync:archive_outputs:whole_number_of_bitmap_chunks" } else if n_out > 1024 { "sync:archive_outputs:above_1024" } else { "sync:archive_outputs:below_1024" });
 		ev.class(if honest { "sync:honest" } else { "sync:adversarial" });
 		ev.class(&format!("sync:end:{}", match &end { SyncEnd::Complete => "complete", SyncEnd::Failed(_) => "failed", SyncEnd::Stalled => "stalled", SyncEnd::Skipped => "not_started(known finding)" }));
 		if let Some(w) = &st.corrupt_what {
